@@ -503,6 +503,18 @@ class World:
         verdict = self.connect_verdict(m, u)
         closed = m.conn.manager_closed
         self.stats["connect-" + verdict] += 1
+        others = [x for x in self.mods if x.tracked and x is not m]
+        nm = u["name"].split(b"\0")[0] if u["ver"] == "v2" else b""
+        same_id = [x for x in others if u["id"] and x.mod_id == u["id"]]
+        same_name = [x for x in others if nm and x.name == nm]
+        dyn_used = sum(1 for x in others if x.mod_id >= P.DYN_MOD_ID_START)
+        if same_id or same_name or (u["id"] == 0 and dyn_used):
+            rid = u["id"]
+            idc = ("dyn" if rid == 0 else "neg" if rid < 0 else "low" if rid < 100 else "100" if rid == 100 else "dynrange" if rid < 200 else "high")
+            self.shapes.add(("identity", idc, u["ver"], int(u["multi"]) if u["ver"] == "v2" else -1, bool(nm),
+                             any(x.unique for x in same_id) if same_id else None,
+                             any(x.unique for x in same_name) if same_name else None, min(dyn_used, 3) if rid == 0 else 0, verdict))
+            self.stats["connect-nontrivial"] += 1
         if verdict == "refuse" or (verdict == "either" and closed):
             if "identity" in self.oracles and not closed:
                 self.viol("identity/not-refused", f"connect request {self._u(u)} by conn {m.idx} must be refused "
